@@ -630,6 +630,11 @@ def check_c12(tier, seed, replay=None, selftest=False):
     jobs = [{"name": "disp-%d" % i, "behaviours": beh[i::nj], "driver": "disp"} for i in range(nj)]
     outs = run_jobs(jobs, exe, "TraceDispatch")
     nb, ne = collect(chk, outs, props | {"SPEC"}, marker="Mark")
+    for o in outs:
+        for v in o["result"]["viol"]:
+            if v["p"] == "DRIFT":
+                chk.drift.append("%s %s" % (v["what"], json.dumps(v["info"])[:300]))
+    dispatch_model(chk, exe, tier)
     isa_part(chk, exe, tier)
     _finish_traces(chk, jobs, outs, nb, ne,
                    "one behaviour = one architecturally consistent CPU/OS configuration (CPUID leaf 1/7 feature bits the resolvers test + "
@@ -643,6 +648,32 @@ def check_c12(tier, seed, replay=None, selftest=False):
     chk.assumptions += ["extension bits no resolver tests (AES-NI, PCLMULQDQ, SSSE3, POPCNT, BMI2) are outside the property's quantifier and taken as present",
                         "units without a plain-C fall-back (AES) document SSE4.1 as their minimum"]
     return chk.finish()
+
+
+def dispatch_model(chk, exe, tier):
+    """Exhaustive TLC run of the transcribed resolver ladders (DispatchLadder) over every consistent configuration, with the
+    entry -> (macro, candidates) table taken from the sources of the working tree.  A counterexample is a configuration; it is
+    reported only if the library's own resolver, run for that configuration, is rejected by TraceDispatch as well - otherwise the
+    transcription is what is off and the line is MODEL-DRIFT."""
+    rc, out, dt = verif.tlc("DispatchModel", env={"DTABLE": verif.dispatch_table_file(), "DFULL": "1" if tier != "quick" else "0"},
+                            workers=WORKERS, timeout=1500)
+    gen, dist = verif.tlc_stats(out)
+    chk.cov["ladder_model"] = {"spec": "DispatchModel", "configurations": dist, "tlc_s": round(dt, 1), "rc": rc,
+                               "invariants": ["LadderBindsOnlyExecutableCode", "SharedObjectsOneFamily"]}
+    if rc == 0:
+        return
+    m = re.search(r"Invariant (\w+) is violated", out)
+    c = re.search(r"cfg = \{([^}]*)\}", out)
+    if not m or not c:
+        raise verif.MachineryError("DispatchModel failed:\n" + out[-3000:])
+    cfg = [x.strip().strip('"') for x in c.group(1).split(",") if x.strip()]
+    beh = [[gen_disp.vcpu_cmd(cfg, False), "bindall"]]
+    o = run_jobs([{"name": "ladder-cex", "behaviours": beh, "driver": "disp"}], exe, "TraceDispatch")
+    real = [v for v in o[0]["result"]["viol"] if v["p"] == "C12"]
+    if real:
+        collect(chk, o, {"C12"}, marker="Mark")
+    else:
+        chk.drift.append("ladder model violates %s for %s but the library's resolver does not" % (m.group(1), sorted(cfg)))
 
 
 def isa_part(chk, exe, tier):
